@@ -232,5 +232,6 @@ impl Opts {
 
 /// Silence the default panic hook while running cases under `catch_unwind`.
 pub fn quiet_panics() {
+    if std::env::var("VERIF_DEBUG").is_ok() { return; }
     std::panic::set_hook(Box::new(|_| {}));
 }
